@@ -317,6 +317,14 @@ class _Rewriter(ast.NodeTransformer):
             call = ast.Call(func=ast.Attribute(value=ast.Name(id="__vc", ctx=ast.Load()), attr="contains", ctx=ast.Load()),
                             args=[node.comparators[0], node.left, ast.Constant(isinstance(node.ops[0], ast.NotIn))], keywords=[])
             return ast.copy_location(call, node)
+        if len(node.ops) == 1 and isinstance(node.ops[0], (ast.Eq, ast.NotEq)) and isinstance(node.left, ast.Attribute) \
+                and node.left.attr == "dtype":
+            # `x.dtype == T`: an object array of symbolic scalars stands for an array of the scalars' type; for every other
+            # array this is the comparison itself
+            call = ast.Call(func=ast.Attribute(value=ast.Name(id="__vc", ctx=ast.Load()), attr="dtype_eq", ctx=ast.Load()),
+                            args=[node.left.value, node.comparators[0], ast.Constant(isinstance(node.ops[0], ast.NotEq))], keywords=[])
+            self.ndtype = getattr(self, "ndtype", 0) + 1
+            return ast.copy_location(call, node)
         return node
 
     def visit_ListComp(self, node): return self._comp(node, "list")
@@ -413,7 +421,8 @@ def extract(relpath, qualname, rewrite_comps=True, keep_decorators=(), cuts=None
     ex.info = dict(qualname="%s::%s" % (relpath, qualname), file=path, lines=[node.lineno, node.end_lineno],
                    sha256=hashlib.sha256(seg.encode()).hexdigest(), dropped=dropped,
                    rewritten=["%d loop(s) given an invariant-cut twin" % len(rw.loops)] * (1 if rw.loops else 0) +
-                             ["%d comprehension(s) routed through __vc.comp" % rw.ncomp] * (1 if rw.ncomp else 0))
+                             ["%d comprehension(s) routed through __vc.comp" % rw.ncomp] * (1 if rw.ncomp else 0) +
+                             ["%d `.dtype == T` test(s) routed through __vc.dtype_eq" % getattr(rw, "ndtype", 0)] * (1 if getattr(rw, "ndtype", 0) else 0))
     return ex
 
 
